@@ -84,6 +84,14 @@ func partCtor(c *vfw.Ctx) {
 		"float64/float32 specials (+-0, +-MaxFloat32 and the next float64s beyond, MaxFloat32+half ulp, +-1e39, +-MaxFloat64, +-Inf, NaN, 2^53+2, subnormals), %d strings (decimal/hex/octal/binary, signs, spaces, underscores, overflowing, float and NaN/Inf spellings, non-numeric), bool, nil, struct{}, []any, map, *int, nil *int, uintptr, named int and named []int, "+
 		"nil/empty/1..3-element slices of every element type; ALL argument lists of length 0, 1 and 2 for valid byte sizes (length 2 over the %d-symbol thinned alphabet for invalid byte sizes); thorough adds ALL lists of length 3 over the thinned alphabet + every string and float64 symbol (valid byte sizes and byteSize 3). non-trivial = at least one argument",
 		len(env.ctors), len(env.syms), len(numericStrings), nThin))
+	dup := map[string]bool{}
+	for _, s := range env.syms {
+		b, _ := json.Marshal(s.A)
+		if dup[string(b)] {
+			c.HarnessError("duplicate alphabet symbol %s", b)
+		}
+		dup[string(b)] = true
+	}
 	c.Set("alphabet_symbols", len(env.syms))
 	c.Set("constructors", len(env.ctors))
 
